@@ -11,8 +11,8 @@
   what was stored there.  Rows are changed only by Put, by defrag's block copies and by shift.
   Abstractions (see notes/C06.md): int32 arithmetic is modelled with unbounded `Int` (positions are
   assumed far from ±2^31), all layers hold the same rows (every layer is Put on every pass), graph
-  execution is immediate (ctx.Compute boundaries are not modelled), SetCausal/Except and the
-  `reserve` pass are not modelled.
+  execution is immediate (ctx.Compute boundaries are not modelled), SetCausal/Except and the `reserve` pass are modelled
+  (`setCausal`, `startReserve`).
 
   `Variant` selects the pinned upstream behaviour (all flags false) or the proposed repairs.
 -/
@@ -256,6 +256,13 @@ def startForward (c : Cache) (b : List Tok) : Cache × Fwd :=
       | some loc => (finishForward c2 loc b, .ok)
       | none => (c2, .full)
 
+/-- `StartForward(…, reserve = true)`: no cache metadata is touched; the pass is laid out at location 0
+    and its mask covers the whole cache (`curCellRange = [0, len-1]`, then padded by `buildMask`).
+    (An `Init` with zero cells is outside the model: Go's `len-1 = -1` is not a `Nat`.) -/
+def startReserve (c : Cache) (b : List Tok) : Cache :=
+  let c1 := { c with curBatch := b, except := [], curLoc := 0, curRange := ⟨0, c.cells.length - 1⟩ }
+  { c1 with curRange := padRange c1 }
+
 /-- mask entry for batch token `t` and location `j`: `true` = exposed (0), `false` = −inf -/
 def maskBit (c : Cache) (t : Tok) (j : Nat) : Bool :=
   let cell := c.cells.getD j Cell.empty
@@ -391,6 +398,9 @@ def wStart : List Cache → List Tok → List Cache × Fwd
       | (cs', .full) => (unwind c1 b :: cs', .full)
       | (cs', .panic) => (c1 :: cs', .panic)
     | (c1, r) => (c1 :: cs, r)
+
+/-- `WrapperCache.StartForward(…, reserve = true)`: every wrapped cache reserves (none can fail) -/
+def wStartReserve (cs : List Cache) (b : List Tok) : List Cache := cs.map (fun c => startReserve c b)
 
 /-- `Put` reaches the cache selected by `SetLayerType`; the driver (like a model) Puts every layer of
     every type on every pass -/
